@@ -71,7 +71,9 @@ class TallyParser(DataParser):
     def tally_group(self, p):
         left = syntax_node.PaddingNode(p[0])
         if hasattr(p, "padding"):
-            left.append(p.padding)
+            # PaddingNode.append takes a string or a comment, not another PaddingNode
+            for node in p.padding.nodes:
+                left.append(node, isinstance(node, syntax_node.CommentNode))
         right = syntax_node.PaddingNode(p[-1])
         return syntax_node.SyntaxNode(
             "tally set", {"left": left, "tally": p.number_sequence, "right": right}
